@@ -82,6 +82,14 @@ class Ref:
         return f"<ref {self.target.qualname}>"
 
 
+class SuperRef:
+    """super() inside a method that is being evaluated abstractly."""
+
+    def __init__(self, obj, after_cls):
+        self.obj = obj
+        self.after_cls = after_cls
+
+
 class ExtRef:
     """Reference to a name of an external (stdlib / third-party) module."""
 
@@ -119,7 +127,7 @@ class Raised(Exception):
         self.exc_name = exc_name
 
 
-ALLOWED = (int, bool, str, type(None), tuple, list, dict, set, frozenset, Sym, Obj, deque, range, ModRef, Ref, Bound, ExtRef)
+ALLOWED = (int, bool, str, type(None), tuple, list, dict, set, frozenset, Sym, Obj, deque, range, ModRef, Ref, Bound, ExtRef, SuperRef)
 
 CallHook = Callable[["Evaluator", ast.Call, Optional[str]], Any]
 NO_MATCH = object()
@@ -181,6 +189,17 @@ class Evaluator:
             self.env = saved
             if module is not None:
                 self.mod_stack.pop()
+
+    def _super_method(self, sref: "SuperRef", name: str):
+        if sref.obj._cls is None or self.repo is None:
+            raise NotEvaluable("super() on an object without class")
+        mro = self.repo.mro(sref.obj._cls)
+        if sref.after_cls not in mro:
+            raise NotEvaluable("super(): defining class is not in the MRO of the object")
+        for c in mro[mro.index(sref.after_cls) + 1 :]:
+            if name in c.methods:
+                return c.methods[name]
+        raise NotEvaluable(f"super().{name} not found")
 
     def _external_call(self, name: str, args: List[Any], node: ast.Call):
         if name == "itertools.chain.from_iterable":
@@ -275,10 +294,14 @@ class Evaluator:
         self._depth = getattr(self, "_depth", 0) + 1
         if self._depth > 40:
             raise NotEvaluable("call depth exceeded")
+        if not hasattr(self, "_cls_stack"):
+            self._cls_stack = []
+        self._cls_stack.append((fi.cls, args[0] if args and fi.cls is not None and not fi.is_staticmethod else None))
         try:
             return self.run_function(fi.node, bound, module=fi.module, closure=False)
         finally:
             self._depth -= 1
+            self._cls_stack.pop()
 
     def run_block(self, stmts: List[ast.stmt]):
         for st in stmts:
@@ -345,8 +368,52 @@ class Evaluator:
             raise Raised(name)
         elif isinstance(st, ast.FunctionDef):
             self.env[st.name] = ("<func>", st)
+        elif isinstance(st, ast.Try):
+            self._run_try(st)
+        elif isinstance(st, ast.With):
+            raise NotEvaluable("with-statement in index code")
         else:
             raise NotEvaluable(f"statement kind {type(st).__name__} not supported: {ast.unparse(st)[:60]}")
+
+    def _exc_matches(self, exc_name: str, type_node: Optional[ast.expr]) -> bool:
+        if type_node is None:
+            return True
+        types = type_node.elts if isinstance(type_node, ast.Tuple) else [type_node]
+        short = exc_name.split(".")[-1]
+        for t in types:
+            tn = ast.unparse(t).split(".")[-1]
+            if tn in (short, "Exception", "BaseException"):
+                return True
+            if self.repo is not None:
+                try:
+                    c = self.repo.cls(short)
+                    if any(b.name == tn for b in self.repo.mro(c)):
+                        return True
+                except Exception:  # noqa: BLE001
+                    pass
+            builtin = {"KeyError": "LookupError", "IndexError": "LookupError"}
+            if builtin.get(short) == tn:
+                return True
+        return False
+
+    def _run_try(self, st: ast.Try):
+        try:
+            try:
+                self.run_block(st.body)
+            except Raised as err:
+                for h in st.handlers:
+                    if self._exc_matches(err.exc_name, h.type):
+                        if h.name:
+                            self.env[h.name] = Sym(f"exc:{err.exc_name}")
+                        self.run_block(h.body)
+                        break
+                else:
+                    raise
+            else:
+                self.run_block(st.orelse)
+        finally:
+            if st.finalbody:
+                self.run_block(st.finalbody)
 
     def assign(self, target: ast.expr, value):
         if isinstance(target, ast.Name):
@@ -605,6 +672,11 @@ class Evaluator:
             return self._module_name(base.mod, n.attr)
         if isinstance(base, ExtRef):
             return ExtRef(f"{base.name}.{n.attr}")
+        if isinstance(base, SuperRef):
+            m = self._super_method(base, n.attr)
+            if m.is_property:
+                return self.call_funcinfo(m, [base.obj])
+            return Bound(base.obj, m)
         if isinstance(base, Ref) and self.repo is not None:
             from .model import ClassInfo
 
@@ -736,6 +808,11 @@ class Evaluator:
                     return self.instantiate(target.target, self._elts(n.args), kwargs)
                 if isinstance(target.target, FuncInfo) and isinstance(n.func, ast.Name):
                     return self.call_funcinfo(target.target, self._elts(n.args), kwargs)
+        if name == "super" and not n.args:
+            stack = getattr(self, "_cls_stack", [])
+            if not stack or stack[-1][0] is None or not isinstance(stack[-1][1], Obj):
+                raise NotEvaluable("super() outside a method evaluated on a symbolic object")
+            return SuperRef(stack[-1][1], stack[-1][0])
         if name == "isinstance" and len(n.args) == 2:
             return self._isinstance(self.eval(n.args[0]), n.args[1])
         if isinstance(n.func, ast.Name) and isinstance(self.env.get(n.func.id), Bound):
@@ -807,6 +884,10 @@ class Evaluator:
                 return self.call_method(recv, meth, args, kwargs)
             if isinstance(recv, ExtRef):
                 return self._external_call(f"{recv.name}.{meth}", args, n)
+            if isinstance(recv, SuperRef):
+                m = self._super_method(recv, meth)
+                kwargs = {kw.arg: self.eval(kw.value) for kw in n.keywords if kw.arg}
+                return self.call_funcinfo(m, [recv.obj, *args], kwargs)
             if isinstance(recv, (ModRef, Ref)):
                 tgt = self._e_Attribute(n.func)
                 if isinstance(tgt, Ref):
